@@ -375,6 +375,10 @@ FIXED += [
         _c("Prog", "", [("a", ("sym", "Stmt")), ("b", ("sym", "Stmt"))]),
         _c("Skip", "Stmt", [("v", I01)]), _c("Not", "Stmt", [("s", ("sym", "Stmt"))]),
         _c("Blk", "Stmt", [("p", ("sym", "Prog"))])]},
+    # the shallowest derivation of the start symbol goes through a Union whose members differ in depth
+    {"id": "unionstart", "start": "S", "classes": [
+        _c("S", "", abstract=True), _c("Lit", "", [("v", I01)]), _c("Deep", "", [("l", ("sym", "S"))]),
+        _c("A", "S", [("u", ("union", [("sym", "Lit"), ("sym", "Deep")]))])]},
     # nested generics: list of union, list of tuple, list of list
     {"id": "nestedgen", "start": "Expr", "classes": [
         _c("Expr", "", abstract=True), _c("Lit", "Expr", [("v", I01)]),
